@@ -13,6 +13,13 @@ DEFAULT_NOTE = ("Trusted base: Amaranth 0.5.9 elaboration (build_netlist) and am
                 "cross-checked against amaranth.sim on explored traces every run), gcc, and the Python oracle/environment of the harness. "
                 "Decided only for the configurations, alphabets and bounds listed in the evidence.")
 claimed = set(open(os.path.join(V, 'tools', 'claimed.txt')).read().split())
+def header_comment(modname):
+    lines = []
+    for l in open(os.path.join(V, "harness", modname + ".py")):
+        if l.startswith("#"): lines.append(l.lstrip("#").strip())
+        elif lines: break
+    t = " ".join(x for x in lines if x)
+    return (t[:900] + " ...") if len(t) > 900 else t
 for p in props:
     pid = p["id"]
     if pid in mods and pid in claimed:
@@ -27,7 +34,7 @@ for p in props:
             replay_cmd_template=f"./check {pid} --replay {{path}}",
             engine="rtlmc",
             level_claimed=dict(category="model_checking", text=getattr(m, "LEVEL_TEXT", "").strip() or
-                               "Exhaustive breadth-first exploration of the real elaborated netlist of the class under test closed with a nondeterministic environment; oracle evaluated on every transition.",
+                               ("Exhaustive breadth-first exploration (within the bounds reported in the evidence) of the real elaborated netlist of the class under test, closed with a nondeterministic environment; the oracle is evaluated on every transition and explored traces are replayed in amaranth.sim. Harness summary: " + header_comment(mods[pid])),
                                design_ref=getattr(m, "DESIGN_REF", "DESIGN.md §5 " + pid)),
             level_note=getattr(m, "LEVEL_NOTE", DEFAULT_NOTE),
             technique=getattr(m, "TECHNIQUE", "explicit-state model checking (BFS with state hashing) of the implementation's netlist; traces replayed in amaranth.sim")))
